@@ -3,7 +3,7 @@ from pyvc.verify import Post, Case, Equiv
 from contracts import common, C12
 
 PROPERTY = 'C11'
-REF_MODULES = ['ref_mut', 'h_path']
+REF_MODULES = ['ref_mut', 'h_path', 'ref_extra', 'ref_core']
 TS = C12.TS
 
 
@@ -35,6 +35,8 @@ def contracts():
                     args={'func': 'ref', 'path': 'inst:core.Path', 'val': 'ref'},
                     loops={1: dict(vars=[('val', 'ref')], ref_vars=[('val', 'ref')]),
                            2: dict(vars=[('func', 'ref')], ref_vars=[('func', 'ref')])}))
+    from contracts import extra
+    cs += common.shared(extra, ['mutation.Assign.__init__', 'mutation.assign', 'mutation._assign_autodiscover'])
     return cs
 
 
